@@ -86,6 +86,14 @@ def fuelPerOp : Nat := 200000
 partial def runOps (r : Root) (env : List Handle) (k : Nat) : List Sexp → List String → List String
   | [], acc => acc
   | s :: rest, acc =>
+    -- top level only: `RootHandle::dispose` (= `Root::reinit`), the program goes on in the new root
+    if (match s with | .list [.atom "reinit"] => true | _ => false) then
+      match reinit fuelPerOp { r with trace := [] } with
+      | .error e => acc ++ [s!"{k}:panic={showPanic e}"]
+      | .ok r1 =>
+        let tr := " ".intercalate (r1.trace.map showEvent)
+        runOps r1 env (k + 1) rest (acc ++ [s!"{k}:t=[{tr}] {showState r1}"])
+    else
     match readStmt s with
     | none => acc ++ [s!"{k}:bad-op"]
     | some st =>
